@@ -184,7 +184,61 @@ func propC03(c *Ctx) {
 			}
 		}
 	}
-	c.Check("R3.1", "load/compare-localHash-with-first-parent", ld.Pos(), eqCall != nil, "load compares its localHash parameter with blocks[0].Header.Parent")
+	// the whole walk handed to a helper of load's own: checkLinkage(localHash, blocks) returns ErrReorg itself and
+	// load returns what it returns. The comparison and its edges are then in the helper; which element is compared
+	// and on which edge the sentinel leaves is not decided by this rule (round 9, C03-R9E) – what is still required:
+	// the helper gets the recorded hash, returns the sentinel somewhere, and load hands its error on
+	var walkHelper *ssa.Function
+	if eqCall == nil && localHash != nil {
+		for _, ci := range callsIn(ld) {
+			call, ok := ci.(*ssa.Call)
+			if !ok {
+				continue
+			}
+			h := staticCallee(call)
+			if h == nil || h.Blocks == nil || !isRepoFunc(h) || h == ld {
+				continue
+			}
+			gets := false
+			for _, a := range call.Call.Args {
+				if stripConv(a) == ssa.Value(localHash) {
+					gets = true
+				}
+			}
+			if !gets {
+				continue
+			}
+			raises := false
+			for _, r := range returnsOf(h) {
+				if isReorgReturn(r, errReorg) {
+					raises = true
+				}
+			}
+			handsOn := false
+			for _, r := range returnsOf(ld) {
+				vals := returnValues(r)
+				if len(vals) == 0 {
+					continue
+				}
+				last := stripConv(vals[len(vals)-1])
+				if ex, isEx := last.(*ssa.Extract); isEx {
+					last = ex.Tuple
+				}
+				if last == ssa.Value(call) {
+					handsOn = true
+				}
+			}
+			if raises && handsOn && len(eqComparisonsIn([]*ssa.Function{h})) > 0 {
+				walkHelper = h
+			}
+		}
+	}
+	if walkHelper != nil {
+		c.OK("R3.1", "load/compare-localHash-with-first-parent", ld.Pos(), "the walk over the loaded blocks is handed to "+fnName(walkHelper)+" together with the recorded hash; it returns ErrReorg and load returns its error: which element is compared and on which edge is not decided")
+		c.OK("R3.1", "load/return-ErrReorg", ld.Pos(), "ErrReorg is raised by "+fnName(walkHelper)+" and handed on by load: not decided")
+	} else {
+		c.Check("R3.1", "load/compare-localHash-with-first-parent", ld.Pos(), eqCall != nil, "load compares its localHash parameter with blocks[0].Header.Parent")
+	}
 	nReorgRet := 0
 	// a callee's own reorg verdict handed on (`case errors.Is(err, ErrReorg): return nil, true, nil`)
 	var passOn []Edge
@@ -209,7 +263,7 @@ func propC03(c *Ctx) {
 		c.Check("R3.1", fmt.Sprintf("load/return-ErrReorg#%d", nReorgRet), instrPos(r), okRet,
 			"a reorg is signalled only on the edge where the hashes differ")
 	}
-	if nReorgRet == 0 {
+	if nReorgRet == 0 && walkHelper == nil {
 		c.Violation("R3.1", "load/return-ErrReorg", ld.Pos(), "load never returns ErrReorg: a replaced chain is not detected")
 	}
 	if eqCall != nil {
@@ -1149,6 +1203,9 @@ func linkageEveryPair(c *Ctx, sp linkageSpec) (bool, string) {
 				shifted = true
 			}
 		}
+		if debugOn() {
+			fmt.Printf("DEBUG linkage: cmp at %s parentIdx=%v hashIdx=%v walk=%v\n", w.Pos(call.Pos()), parentIdx, hashIdx, hashWalk != nil)
+		}
 		if parentIdx == nil || hashIdx == nil {
 			// a parent hash is compared with a block hash, but which elements these are cannot be read
 			// (e.g. a walk that re-slices the sequence): not decided, provided a mismatch is an error
@@ -1196,6 +1253,9 @@ func linkageEveryPair(c *Ctx, sp linkageSpec) (bool, string) {
 		covered := false
 		for _, cand := range cands {
 			lo, hi, enter, header, ok := aff.loopRange(cand)
+			if debugOn() {
+				fmt.Printf("DEBUG linkage: cand %v (%T) loopRange ok=%v lo=%s hi=%s\n", cand, cand, ok, lo, hi)
+			}
 			if !ok {
 				continue
 			}
@@ -1211,6 +1271,30 @@ func linkageEveryPair(c *Ctx, sp linkageSpec) (bool, string) {
 			wantLo := konst(0)
 			if shifted && hashWalk != nil && hashWalk.ext {
 				wantLo = konst(-1) // the first iteration compares element 0 with what was carried in: the pairs start with the second
+			}
+			// a loop over every index that leaves out its first iteration by a test of the index (for i := range blocks
+			// { if i == 0 { continue }; … blocks[i-1] … }): the pairs start with the second index; the edges of that test
+			// are the one legitimate way past the comparison (round 9, C18-R9E)
+			var firstSkip []Edge
+			if lo.isConst() && linEq(lo.add(k), wantLo.sub(konst(1))) {
+				candL := aff.Of(cand)
+				allInstrs(header.Parent(), func(in ssa.Instruction) {
+					b, isB := in.(*ssa.BinOp)
+					if !isB {
+						return
+					}
+					n, isC := constInt(b.Y)
+					if !isC || !linEq(aff.Of(b.X), candL) {
+						return
+					}
+					if (b.Op == token.EQL && n == lo.c) || (b.Op == token.LSS && n == lo.c+1) || (b.Op == token.LEQ && n == lo.c) {
+						t, _ := boolEdges(b)
+						firstSkip = append(firstSkip, t...)
+					}
+				})
+				if len(firstSkip) > 0 {
+					lo = lo.add(konst(1))
+				}
 			}
 			if !linEq(lo.add(k), wantLo) || !linEq(hi.add(k), wantHi) {
 				linkDetail = fmt.Sprintf("the loop compares the pairs starting at [%s] up to but excluding [%s]; every adjacent pair is [0] … [%s]", lo.add(k), hi.add(k), wantHi)
@@ -1229,7 +1313,7 @@ func linkageEveryPair(c *Ctx, sp linkageSpec) (bool, string) {
 			everyIter := lifted != nil
 			if everyIter {
 				for _, ed := range enter {
-					if hit, _ := reach(Site{ed.To, -1}, func(in ssa.Instruction) bool { return in.Block() == header }, newCuts().addInstr(lifted).addEdges(sp.skipOK)); hit {
+					if hit, _ := reach(Site{ed.To, -1}, func(in ssa.Instruction) bool { return in.Block() == header }, newCuts().addInstr(lifted).addEdges(sp.skipOK).addEdges(firstSkip)); hit {
 						everyIter = false
 					}
 				}
